@@ -58,6 +58,14 @@ def build(scn, S):
         def _on_stopped(self, *a):
             st['stop_dispatched'] = True
 
+        @handler('spin')
+        def _on_spin(self, *a):
+            # scenario option 'busy' (C08's scheduler batch): a loop that never goes to sleep - this handler keeps an event pending until
+            # the stopper is about to call stop() - so the loop thread is runnable at whatever point the stopper is pre-empted
+            if scn.get('busy') and not st['done'] and st.get('spins', 0) < 4000:
+                st['spins'] = st.get('spins', 0) + 1
+                self.fire(Event.create('spin'))
+
         @handler('unregistered')
         def _on_unregistered(self, comp, parent):
             st.setdefault('unregistered', set()).add(id(comp))
@@ -125,6 +133,8 @@ def build(scn, S):
                 poller.discard(a)
             else:
                 raise ValueError(how)
+    if scn.get('busy'):
+        app.fire(Event.create('spin'))
     if scn.get('timer'):
         Timer(1000.0, Event.create('tmr'), persist=True).register(app)
     if scn.get('second_manager'):
